@@ -431,6 +431,60 @@ func sqlBoundaryInputs() []string {
 				}
 			}
 		}
+		// (o) compound table keys with one word written as a back-quoted / bracketed / quoted name, glued by
+		// '_' or split by a comment: only the plain spelling is the compound keyword
+		var comp []string
+		for k, v := range kwTab() {
+			if strings.Contains(k, " ") && v != 'F' {
+				comp = append(comp, k)
+			}
+		}
+		sort.Strings(comp)
+		for _, k := range comp {
+			ws := strings.Fields(gen.LowerASCII(k))
+			var forms []string
+			for i := range ws {
+				for _, q := range [][2]string{{"`", "`"}, {"[", "]"}, {"\"", "\""}, {"(", ")"}} {
+					c := append([]string{}, ws...)
+					c[i] = q[0] + c[i] + q[1]
+					forms = append(forms, strings.Join(c, " "))
+				}
+			}
+			forms = append(forms, strings.Join(ws, "_"), strings.Join(ws, "/**/"), strings.Join(ws, "\n"), strings.Join(ws, " "), strings.Join(ws, "  "), strings.Join(ws, " /*x*/ "))
+			for _, f := range forms {
+				add("1 " + f + " 1")
+				add("1 " + f + " select 1")
+				add("1 " + f + " (1)")
+				add("x' " + f + " 1 -- ")
+			}
+		}
+		// (p) every function-class table word directly behind ';' and behind "; " (statement position)
+		var fns []string
+		for k, v := range kwTab() {
+			if v == 'f' && len(k) <= 12 {
+				fns = append(fns, gen.LowerASCII(k))
+			}
+		}
+		sort.Strings(fns)
+		for _, lk := range fns {
+			add("1;" + lk + "(1,2)")
+			add("1; " + lk + "(1)")
+			add("1;" + lk + " 1")
+		}
+		// (n) quotes, blanks and comment bytes written in the encodings that surround SQL in practice: plain
+		// bytes for the library, which decodes nothing
+		evec := []string{"1' or '1'='1", "x' or 1=1 -- ", "1 or 1=1", "1 union select 2", "\" or \"\"=\"", "1; drop table t", "1' and sleep(5) #", "admin'--", "1/**/or/**/1=1", "') or ('a'='a"}
+		for _, v := range evec {
+			for k := 0; k < 15; k++ {
+				add(gen.Encode(v, "'", k))
+				add(gen.Encode(v, "\"", k))
+				add(gen.Encode(v, " ", k))
+				add(gen.Encode(v, "' ", k))
+				add(gen.Encode(v, "-#/", k))
+				add(gen.Encode(v, "'\" -#/;(", k))
+				add(gen.Encode(v, "=", k))
+			}
+		}
 		// (g) characters the Unicode-aware library helpers class with ASCII blanks, digits and letters,
 		// in front of, behind and in place of the blanks of short vectors
 		uvec := []string{"1 or 1=1", "1 union select 2", "' or 1=1 --", "1; drop table t", "select 1 from t", "1 or 1", "a b", "1 2", "x' and 'a'='a", "-1 or sleep(1)", "1"}
@@ -715,6 +769,8 @@ func TestC06(t *testing.T) {
 		}
 		judge(w, "1 "+gen.UpperASCII(wc[i].Word)+" 2")
 	})
+	p = c.rec.NewPart("source_bytes", fmt.Sprintf("bytes the SQLi source files write as literals and the byte-class alphabet lacks, inserted at every position of every string of 0..%d core symbols, and behind every hostile construct opener at the end of the input", 2), false, true, "")
+	c.srcByteInputs(p, extraBytes(srcDict().SQLBytes, gen.AlphaSQL), gen.CoreSQL, 2, sqlHostile, judge)
 	p = c.rec.NewPart("source_dictionary", fmt.Sprintf("%d lead constructs (closed and open literals of every kind, numbers, words, punctuation, comments) x blank? x W x blank? x every tail of 0..2 (thorough 3) symbols over %q, for each word W (as written, upper, lower) that occurs as a literal in the SQLi source files and is not a table key", len(sqlDictLeads), sqlDictTail), false, true, "")
 	c.sqlDictInputs(p, pick(2, 3), judge)
 	p = c.rec.NewPart("rapid_fragments", "pgregory.net/rapid over the SQL fragment grammar (fragments + arbitrary bytes, drawn separators, tail-repeat)", true, false, "")
